@@ -69,9 +69,11 @@ func (c *Connack) Unpack(r io.Reader) error {
 			return codes.ErrProtocol
 		}
 		c.Properties = &Properties{}
-		return c.Properties.Unpack(bufr, CONNACK)
+		if err := c.Properties.Unpack(bufr, CONNACK); err != nil {
+			return err
+		}
 	}
-	return nil
+	return endOfPacket(bufr)
 
 }
 
